@@ -26,14 +26,14 @@ mirrored field has the same offset, element width, element count and signedness 
 Go field is mirrored, and every C member is mirrored or is an alternate union view / padding member
 whose bytes are all covered. -/
 theorem layouts_agree :
-    ∀ x ∈ layoutObligations, pairOk Gen.cRecs (goRecsFor x.2) x.1 = true := by decide
+    ∀ x ∈ layoutObligations, pairOk Gen.cRecs (goRecsFor x.2) x.1 = true := by decide +kernel
 
 -- non-vacuity: the obligation list is not empty and contains the key type on both the memory and
 -- the wire layout; and the predicate can fail (a pairing against the wrong record is rejected)
 set_option maxRecDepth 200000 in
-example : layoutObligations.length > 100 := by decide
-example : pairOk Gen.cRecs (goRecsFor "amd64")
-    { c := "redirect_entry", go := "stub.bpfTuplesKey", fields := [], cAlt := [], wire := false } = false := by decide
+example : layoutObligations.length > 100 := by decide +kernel
+example : pairOk Gen.cRecs (goRecsFor n!"amd64")
+    { c := n!"redirect_entry", go := n!"stub.bpfTuplesKey", fields := [], cAlt := [], wire := false } = false := by decide +kernel
 
 /-- What `pairOk` gives for one mirrored field: the same bytes of the record image are read as
 the same values on both sides, on either byte order. -/
@@ -72,22 +72,22 @@ theorem pairOk_sound (cs gs : List Rec) (p : Pairing) (h : pairOk cs gs p = true
 build, incl. the `PARAM` literal) is either paired with a C record or explicitly listed as Go-only:
 a new shared type cannot appear without a pairing. -/
 theorem every_go_type_classified :
-    ∀ r ∈ goRecsFor "amd64", pairing.any (fun p => p.go == r.name) || goOnlyTypes.contains r.name = true := by
+    ∀ r ∈ goRecsFor n!"amd64", pairing.any (fun p => p.go == r.name) || goOnlyTypes.contains r.name = true := by
   decide
 
 /-- Every map of the C program that the Go side holds a handle for (`bpfMaps`) and whose contents it
 reads or writes has paired record types for key and value; and every map, program and variable the Go
 loader asks for (`ebpf:"…"` tags) exists in the C program. -/
-theorem shared_maps_are_paired : ∀ m ∈ Gen.cMaps, mapOk m = true := by decide
+theorem shared_maps_are_paired : ∀ m ∈ Gen.cMaps, mapOk m = true := by decide +kernel
 
 theorem go_handles_exist_in_c :
     (∀ t ∈ Gen.goMapTags, (findMap t Gen.cMaps).isSome = true)
     ∧ (∀ t ∈ Gen.goProgTags, Gen.cProgs.contains t = true)
-    ∧ (∀ t ∈ Gen.goVarTags, Gen.cGlobals.any (fun g => g.1 == t) = true) := by decide
+    ∧ (∀ t ∈ Gen.goVarTags, Gen.cGlobals.any (fun g => g.1 == t) = true) := by decide +kernel
 
 /-- Key and value widths used by the control plane for scalar-keyed maps equal the C definitions; in
 particular the LPM key size declared by `unused_lpm_type` is the size of `struct lpm_key` = `_bpfLpmKey`. -/
-theorem scalar_map_io_widths : ∀ x ∈ goScalarIO, scalarIOOk x = true := by decide
+theorem scalar_map_io_widths : ∀ x ∈ goScalarIO, scalarIOOk x = true := by decide +kernel
 
 /-! ## B. Enumerations, constants, limits -/
 
@@ -103,26 +103,26 @@ theorem generator_values_agree (s : Spec) :
 
 /-- … and that value is the index in the spec for match types (so inserting a match type in the
 middle renumbers both sides identically). -/
-theorem generator_match_type_index (s : Spec) (i : Nat) (n : String) (h : s.matchTypes[i]? = some n) :
-    (genGo s).matchTypes[i]? = some ("MatchType_" ++ n, i) ∧ (genC s).matchTypes[i]? = some ("MatchType_" ++ n, i) := by
+theorem generator_match_type_index (s : Spec) (i : Nat) (n : Name) (h : s.matchTypes[i]? = some n) :
+    (genGo s).matchTypes[i]? = some (n!"MatchType_" ++ n, i) ∧ (genC s).matchTypes[i]? = some (n!"MatchType_" ++ n, i) := by
   simp [genGo, genC, enumFrom_getElem?, h]
 
-example : (genGo Gen.specData).matchTypes.length > 3 := by decide
+example : (genGo Gen.specData).matchTypes.length > 3 := by decide +kernel
 
 /-- The checked-in generated files carry exactly the generator's output for the checked-in spec
 (a spec edit without regeneration, or a hand edit of one generated file, breaks this). -/
-theorem generated_files_match_spec : goFileMatchesSpec = true ∧ cFileMatchesSpec = true := by decide
+theorem generated_files_match_spec : goFileMatchesSpec = true ∧ cFileMatchesSpec = true := by decide +kernel
 
 set_option maxRecDepth 200000 in
 /-- **Headline (constants).** Every shared enumeration value and limit has the same numeric value on
 both sides: everything the generator emits for the current spec, and the hand-paired limits. -/
-theorem consts_agree : ∀ x ∈ specConstPairs ++ fixedConstPairs, constPairOk x = true := by decide
+theorem consts_agree : ∀ x ∈ specConstPairs ++ fixedConstPairs, constPairOk x = true := by decide +kernel
 
-example : (specConstPairs ++ fixedConstPairs).length > 30 := by decide
+example : (specConstPairs ++ fixedConstPairs).length > 30 := by decide +kernel
 
 /-- Array lengths and map sizes derived from those limits agree as well (bitmap words × 32 =
 MaxMatchSetLen, connectivity slots = 256 × 6, pname lengths = TaskCommLen, …). -/
-theorem limits_agree : ∀ x ∈ limitChecks, x.2 = true := by decide
+theorem limits_agree : ∀ x ∈ limitChecks, x.2 = true := by decide +kernel
 
 /-! ## C. Map keys, byte for byte -/
 
@@ -140,7 +140,7 @@ theorem tuples_key_bytes (e : Endian) (f : Flow) (mapped : Bool) (_hf : f.WF) :
 trailing bytes (padding in C, an explicit `_ [3]uint8` in Go) are zero on both sides. -/
 theorem tuples_key_size_and_padding (e : Endian) (f : Flow) (hf : f.WF) :
     (cTuplesKey e f).length = 40
-    ∧ (findRec "tuples_key" Gen.cRecs).map (·.size) = some 40
+    ∧ (findRec n!"tuples_key" Gen.cRecs).map (·.size) = some 40
     ∧ (cTuplesKey e f).drop 37 = [0, 0, 0] := by
   obtain ⟨hlen, _, _, _, _, _⟩ := hf
   have hs : (flowAddr16 f.v4 f.src).length = 16 := by
@@ -184,34 +184,34 @@ theorem reversed_key_bytes (e : Endian) (f : Flow) (mapped : Bool) (hf : f.WF) :
   rw [k1, k2, k3, k4, k5]
   simp [Flow.reverse]
 
-example : (⟨true, [10, 0, 0, 1], [8, 8, 8, 8], 40000, 443, 6⟩ : Flow).WF := by decide
+example : (⟨true, [10, 0, 0, 1], [8, 8, 8, 8], 40000, 443, 6⟩ : Flow).WF := by decide +kernel
 example : (⟨false, [0x20, 1, 0xd, 0xb8, 0, 0, 0, 0, 0, 0, 0, 0, 0, 0, 0, 1],
-    [0, 0, 0, 0, 0, 0, 0, 0, 0, 0, 0xff, 0xff, 1, 2, 3, 4], 53, 65535, 17⟩ : Flow).WF := by decide
+    [0, 0, 0, 0, 0, 0, 0, 0, 0, 0, 0xff, 0xff, 1, 2, 3, 4], 53, 65535, 17⟩ : Flow).WF := by decide +kernel
 example : cTuplesKey .little ⟨true, [10, 0, 0, 1], [8, 8, 8, 8], 40000, 443, 6⟩ =
-    [0,0,0,0,0,0,0,0,0,0,255,255,10,0,0,1, 0,0,0,0,0,0,0,0,0,0,255,255,8,8,8,8, 156,64, 1,187, 6, 0,0,0] := by decide
+    [0,0,0,0,0,0,0,0,0,0,255,255,10,0,0,1, 0,0,0,0,0,0,0,0,0,0,255,255,8,8,8,8, 156,64, 1,187, 6, 0,0,0] := by decide +kernel
 
 /-- **Connectivity slots.** For every outbound id and every packet the kernel consults the map for
 (TCP, and UDP to a port other than 53), the slot the kernel reads is the slot under which the
 control plane publishes the health of that traffic class (TCP / data UDP, IPv4 / IPv6). -/
 theorem connectivity_key_agree (outbound l4proto dport : Nat) (ethIsV4 : Bool) (h53 : dport ≠ 53) :
     cConnKey outbound l4proto dport ethIsV4 = some (goConnKey outbound (ntOfPacket l4proto ethIsV4)) := by
-  have h6 : goConstNat "control.outboundConnectivitySlotsPerOutbound" = 6 := by decide
-  have h2 : goConstNat "control.outboundConnectivitySlotsPerDomain" = 2 := by decide
-  have d0 : goConstNat "control.outboundConnectivityDomainTCP" = 0 := by decide
-  have d2 : goConstNat "control.outboundConnectivityDomainDataUDP" = 2 := by decide
+  have h6 : goConstNat n!"control.outboundConnectivitySlotsPerOutbound" = 6 := by decide +kernel
+  have h2 : goConstNat n!"control.outboundConnectivitySlotsPerDomain" = 2 := by decide +kernel
+  have d0 : goConstNat n!"control.outboundConnectivityDomainTCP" = 0 := by decide +kernel
+  have d2 : goConstNat n!"control.outboundConnectivityDomainDataUDP" = 2 := by decide +kernel
   unfold cConnKey goConnKey goDomainIdx ntOfPacket NetworkType.effDomain
   by_cases hu : l4proto = 17 <;> cases ethIsV4 <;> simp [h53, hu, h6, h2, d0, d2]
 
 /-- Every slot the control plane can write is inside the map (`max_entries` as the compiler folds it),
 for every outbound id and network type. -/
 theorem connectivity_key_in_range (outbound : Nat) (t : NetworkType) (ho : outbound < 256) :
-    goConnKey outbound t < mapMaxEntries "outbound_connectivity_map" := by
-  have hm : mapMaxEntries "outbound_connectivity_map" = 1536 := by decide
-  have h6 : goConstNat "control.outboundConnectivitySlotsPerOutbound" = 6 := by decide
-  have h2 : goConstNat "control.outboundConnectivitySlotsPerDomain" = 2 := by decide
-  have d0 : goConstNat "control.outboundConnectivityDomainTCP" = 0 := by decide
-  have d1 : goConstNat "control.outboundConnectivityDomainDnsUDP" = 1 := by decide
-  have d2 : goConstNat "control.outboundConnectivityDomainDataUDP" = 2 := by decide
+    goConnKey outbound t < mapMaxEntries n!"outbound_connectivity_map" := by
+  have hm : mapMaxEntries n!"outbound_connectivity_map" = 1536 := by decide +kernel
+  have h6 : goConstNat n!"control.outboundConnectivitySlotsPerOutbound" = 6 := by decide +kernel
+  have h2 : goConstNat n!"control.outboundConnectivitySlotsPerDomain" = 2 := by decide +kernel
+  have d0 : goConstNat n!"control.outboundConnectivityDomainTCP" = 0 := by decide +kernel
+  have d1 : goConstNat n!"control.outboundConnectivityDomainDnsUDP" = 1 := by decide +kernel
+  have d2 : goConstNat n!"control.outboundConnectivityDomainDataUDP" = 2 := by decide +kernel
   have hd : goDomainIdx t ≤ 2 := by
     unfold goDomainIdx; rw [d0, d1, d2]
     split
@@ -230,11 +230,11 @@ the IP version. -/
 theorem connectivity_key_injective (o o' : Nat) (t t' : NetworkType) (ho : o < 256) (ho' : o' < 256)
     (h : goConnKey o t = goConnKey o' t') :
     o = o' ∧ goDomainIdx t = goDomainIdx t' ∧ (t.ip = .v6 ↔ t'.ip = .v6) := by
-  have h6 : goConstNat "control.outboundConnectivitySlotsPerOutbound" = 6 := by decide
-  have h2 : goConstNat "control.outboundConnectivitySlotsPerDomain" = 2 := by decide
-  have d0 : goConstNat "control.outboundConnectivityDomainTCP" = 0 := by decide
-  have d1 : goConstNat "control.outboundConnectivityDomainDnsUDP" = 1 := by decide
-  have d2 : goConstNat "control.outboundConnectivityDomainDataUDP" = 2 := by decide
+  have h6 : goConstNat n!"control.outboundConnectivitySlotsPerOutbound" = 6 := by decide +kernel
+  have h2 : goConstNat n!"control.outboundConnectivitySlotsPerDomain" = 2 := by decide +kernel
+  have d0 : goConstNat n!"control.outboundConnectivityDomainTCP" = 0 := by decide +kernel
+  have d1 : goConstNat n!"control.outboundConnectivityDomainDnsUDP" = 1 := by decide +kernel
+  have d2 : goConstNat n!"control.outboundConnectivityDomainDataUDP" = 2 := by decide +kernel
   have hd : ∀ x : NetworkType, goDomainIdx x ≤ 2 := by
     intro x; unfold goDomainIdx; rw [d0, d1, d2]
     split
@@ -249,17 +249,17 @@ theorem connectivity_key_injective (o o' : Nat) (t t' : NetworkType) (ho : o < 2
     (refine ⟨by omega, by omega, ?_⟩) <;> simp
   all_goals omega
 
-example : goConnKey 255 ⟨.udp, .v6, .unset⟩ = 1535 := by decide
-example : cConnKey 7 17 443 false = some 47 := by decide
+example : goConnKey 255 ⟨.udp, .v6, .unset⟩ = 1535 := by decide +kernel
+example : cConnKey 7 17 443 false = some 47 := by decide +kernel
 
 /-- **Listener sockets.** The key under which the control plane stores the TCP/IPv4, TCP/IPv6 and UDP
 listener is the key `assign_listener` looks up for a packet of that kind; the three keys are
 distinct. -/
 theorem listen_key_agree (l4proto : Nat) (ethIsV6 : Bool) :
     cListenKey l4proto ethIsV6 = goListenKey (listenerOfPacket l4proto ethIsV6) := by
-  have z : cConstNat "zero_key" = goConstNat "consts.ZeroKey" := by decide
-  have o : cConstNat "one_key" = goConstNat "consts.OneKey" := by decide
-  have t : cConstNat "two_key" = goConstNat "consts.TwoKey" := by decide
+  have z : cConstNat n!"zero_key" = goConstNat n!"consts.ZeroKey" := by decide +kernel
+  have o : cConstNat n!"one_key" = goConstNat n!"consts.OneKey" := by decide +kernel
+  have t : cConstNat n!"two_key" = goConstNat n!"consts.TwoKey" := by decide +kernel
   unfold cListenKey listenerOfPacket
   by_cases h : l4proto = 6 <;> cases ethIsV6 <;> simp [h, goListenKey, z, o, t]
 
